@@ -101,6 +101,7 @@ class Ctx:
         self.n_excluded = 0
         self.n_budget_skipped = 0
         self.inconclusive = 0
+        self.inner = 0
         self.case = None
         self.klass = None
         self.failure_seen = False
@@ -124,6 +125,10 @@ class Ctx:
             self.labels['nontrivial'] += 1
         for x in labels:
             self.labels[str(x)] += 1
+
+    def tick(self, n=1):
+        """count inner evaluations of a block case (a case that loops over a finite sub-domain)"""
+        self.inner += n
 
     def label(self, *labels):
         for x in labels:
@@ -170,7 +175,7 @@ class Ctx:
 
     # -- runner side ------------------------------------------------------------------------
     def stats(self):
-        return dict(evaluations=self.evaluations, nontrivial=sorted(self.nontrivial),
+        return dict(evaluations=self.evaluations + self.inner, nontrivial=sorted(self.nontrivial),
                     labels=dict(self.labels), samples=self.samples, nt_samples=self.nt_samples,
                     max_resid=self.max_resid, n_excluded=self.n_excluded,
                     n_budget_skipped=self.n_budget_skipped, inconclusive=self.inconclusive)
